@@ -9,9 +9,12 @@
 2. type choice     `Int32` if the range fits `i32`, else `UInt32` if it fits `u32`, else
                    `Err(EnumTypeCanNotBeDeduced(<location of the enum's name>, min, max))`
 3. conversion loop every value is rewritten as `value as i32` / `value as u32` in the enum registry (keyed by value id)
-4. promotion loop  in the parent scope the symbol vector of every name must have length 1 (`assert_eq!`), its
-                   `EnumValueUntyped(id)` becomes `EnumValue(id)`, replacements are counted and
-                   `assert_eq!(replacements, enum_values.len())`
+4. promotion loop  in the parent scope the symbol vector of every name (`get_mut(name).unwrap()`) is walked: every
+                   `EnumValueUntyped(id)` in it becomes `EnumValue(id)`, the other symbols of the name (a constant
+                   buffer block may share the name of an enum value) stay; replacements are counted and
+                   `assert_eq!(replacements, enum_values.len())`.  (Until fix `fe5dd8d` the loop also asserted that the
+                   vector has exactly one element; `cbuffer A {..} enum E { A };` and `namespace A {} enum E { A };`
+                   reached that assertion.  The fix removes it and rejects the namespace case in `register_enum_value`.)
 5. reinsertion     `(name, [EnumValue(id)])` goes back into the (emptied) enum scope; an occupied name panics
 
 The iteration order of the drained map is the explicit list argument `vals` of every function below;
@@ -139,7 +142,8 @@ def Sym.isUntyped : Sym → Bool
 
 abbrev Scope := String → Option (List Sym)
 
-/-- loop 4: `get_mut(name).unwrap()`, `assert_eq!(symbols.len(), 1)`, promote, count -/
+/-- loop 4: `get_mut(name).unwrap()`, then `for symbol in symbols { if let EnumValueUntyped(id) = symbol { *symbol =
+    EnumValue(*id); replacements += 1 } }` — a vector of ANY length (no `assert_eq!(symbols.len(), 1)` since `fe5dd8d`) -/
 def promoteStep (st : Except Failure (Scope × Nat)) (e : Entry) : Except Failure (Scope × Nat) :=
   match st with
   | .error f => .error f
@@ -147,10 +151,7 @@ def promoteStep (st : Except Failure (Scope × Nat)) (e : Entry) : Except Failur
     match parent e.name with
     | none => .error (.panic "called `Option::unwrap()` on a `None` value")
     | some syms =>
-      if syms.length ≠ 1 then
-        .error (.panic s!"assertion `left == right` failed\n  left: {syms.length}\n right: 1")
-      else
-        .ok (upd parent e.name (syms.map Sym.promote), n + (syms.filter Sym.isUntyped).length)
+      .ok (upd parent e.name (syms.map Sym.promote), n + (syms.filter Sym.isUntyped).length)
 
 /-- loop 5: reinsertion into the emptied enum scope -/
 def reinsertStep (st : Except Failure Scope) (e : Entry) : Except Failure Scope :=
